@@ -53,15 +53,30 @@ func exhaustiveAlphabet() []Msg {
 	return out
 }
 
-// exhaustiveCase returns the idx-th history of the given length.
-func exhaustiveCase(alpha []Msg, length int, idx int64) Case {
+// exhaustiveCase returns the idx-th history of the given length, and whether it
+// is well-formed (a document is opened before it is changed and is not opened twice).
+func exhaustiveCase(alpha []Msg, length int, idx int64) (Case, bool) {
 	c := Case{Tier: "exh"}
 	n := int64(len(alpha))
+	open := map[string]bool{}
+	ok := true
 	for i := 0; i < length; i++ {
-		c.Msgs = append(c.Msgs, alpha[idx%n])
+		m := alpha[idx%n]
 		idx /= n
+		switch m.Kind {
+		case "open":
+			if open[m.URI] {
+				ok = false
+			}
+			open[m.URI] = true
+		case "change":
+			if !open[m.URI] {
+				ok = false
+			}
+		}
+		c.Msgs = append(c.Msgs, m)
 	}
-	return c
+	return c, ok
 }
 
 func exhaustiveCount(alpha []Msg, length int) int64 {
